@@ -309,8 +309,8 @@ class InElastic(_Simu):
             Terminal.MyPrintError(f"The result '{result}' is not implemented yet.")
             return None  # type: ignore [return-value]
 
-        # flat nodal vectors (Nn * dof_n,) cannot be told from element values when Nn * dof_n == Ne
-        storedOnNodes = True if result in ["displacement"] else None
+        # the storage is known here; sizes alone cannot tell it when Nn * dof_n == Ne or Nn == Ne
+        storedOnNodes = result in ["ux", "uy", "uz", "displacement", "displacement_norm", "displacement_matrix"]
         return self.Results_Reshape_values(values, nodeValues, storedOnNodes)
 
     def Results_Iter_Summary(
